@@ -438,7 +438,7 @@ class Lexer:
                     token=ErrorToken(
                         type_=TokenType.ERROR,
                         index=self.start,
-                        value=self.source[self.start],
+                        value=self.source[self.start : self.start + 1],
                         markup_start=self.markup_start,
                         markup_stop=self.pos,
                         source=self.source,
@@ -576,7 +576,7 @@ class Lexer:
                     token=ErrorToken(
                         type_=TokenType.ERROR,
                         index=self.start,
-                        value=self.source[self.start],
+                        value=self.source[self.start : self.start + 1],
                         markup_start=self.markup_start,
                         markup_stop=self.pos,
                         source=self.source,
